@@ -412,6 +412,13 @@ def _fresh(raw):
 PURITY_STATS = {}
 
 
+def _try(f):
+    try:
+        return f()
+    except Exception:
+        return None
+
+
 def check_purity(ser, raw, pod, key=None, ctxvars=None, block=None, full=False):
     """purity / no-aliasing probe (harness/translate/c09_purity.py) of one serializer on one wire value (payload
     bytes or integer) in one form.  With a registered key the same bytes are also decoded through a fresh Block
@@ -446,6 +453,34 @@ def check_purity(ser, raw, pod, key=None, ctxvars=None, block=None, full=False):
                 b = make_block(key, ctxvars, var, _fresh(raw))
                 c09_purity.mutate(_force(b.deserialize_var(var)))      # first read fills the cache; edit what it returned
                 return _force(b.deserialize_var(var))                  # second read is served from the cache
+            def copied_block_api():
+                # a deep copy of the Block (what Message.take() hands to every subscriber) is re-packed with ANOTHER value through
+                # the Block API; the original Block must still decode to what its own bytes say
+                import copy as _copy
+                b = make_block(key, ctxvars, var, _fresh(raw))
+                b.deserialize_var(var)                                   # the original has parsed (cached) the subfield
+                c = _copy.deepcopy(b)
+                cands = []
+                try:
+                    if isinstance(raw, int):
+                        cands = [ser.deserialize(c, x, pod=False) for x in (raw ^ 1, 0, 1) if x != raw]
+                    else:
+                        alt = bytes(raw)
+                        for i in range(len(alt) - 1, -1, -1):
+                            cands.append(alt[:i] + bytes([alt[i] ^ 1]) + alt[i + 1:])
+                            if len(cands) >= 6:
+                                break
+                        cands = [x for x in (_try(lambda a=a: ser.deserialize(c, a, pod=False)) for a in cands) if x is not None]
+                except Exception:
+                    cands = []
+                for v2 in cands:
+                    try:
+                        c.serialize_var(var, v2)
+                        break
+                    except Exception:
+                        continue
+                return _force(b.deserialize_var(var))
+            fresh.append(("Block.deserialize_var on a Block whose deep copy was re-packed with another value", copied_block_api))
             fresh.append(("Block.deserialize_var on a fresh Block", fresh_block_api))
             fresh.append(("Block.deserialize_var again on one Block after its first result was edited", cached_block_api))
     st, info = c09_purity.probe(dec, enc, c09_values.canon, tuple(fresh), full=full,
